@@ -51,6 +51,8 @@ def bootstrap():
     _boot["treg_snap"] = list(TypeTransformer.registry._registry)
     _boot["ereg_snap"] = list(encoder_registry._registry)
     _boot["parsers_snap"] = dict(pbase.__parsers__)
+    from . import threads
+    _boot["coop_locks"] = threads.install_coop_locks()
     gc.disable()
     return utype
 
@@ -68,10 +70,10 @@ def reset_world(collect=False):
     for f in typing._cleanups:  # fresh generic-alias caches => fresh ForwardRef objects
         f()
     treg, ereg = _boot["treg"], _boot["ereg"]
-    treg._registry[:] = _boot["treg_snap"]
-    treg._cache.clear()
-    ereg._registry[:] = _boot["ereg_snap"]
-    ereg._cache.clear()
+    treg._registry = list(_boot["treg_snap"])
+    treg._cache = {}
+    ereg._registry = list(_boot["ereg_snap"])
+    ereg._cache = {}
     p = _boot["pbase"].__parsers__
     p.clear()
     p.update(_boot["parsers_snap"])
